@@ -42,7 +42,13 @@ VariantKinds == <<
 VarName(i) == CASE i = 1 -> "Alpha" [] i = 2 -> "BetaGamma" [] i = 3 -> "Delta"
 
 Empty == [kind |-> "none"]
-Init == d = Empty /\ nattr = 0
+(* a three-variant untagged enum every tier visits (recorded finding
+   C04-untagged-overlapping-null-variants needs at least three variants) *)
+NullOverlap == [kind |-> "enum", tagging |-> "untagged", container |-> {},
+                variants |-> << VariantKinds[1] @@ [name |-> VarName(1), idx |-> 1],
+                                VariantKinds[2] @@ [name |-> VarName(2), idx |-> 2],
+                                VariantKinds[4] @@ [name |-> VarName(3), idx |-> 4] >>]
+Init == (d = Empty \/ d = NullOverlap) /\ nattr = 0
 
 ChooseKind ==
     /\ d = Empty /\ UNCHANGED nattr
